@@ -1,14 +1,20 @@
 //! One module per property.
 pub mod c01;
 pub mod c02;
+pub mod c03;
+pub mod c04;
 pub mod c05;
+pub mod c06;
 pub mod c07;
 pub mod c08;
+pub mod c09;
+pub mod c13;
 pub mod c14;
 pub mod c15;
 pub mod c16;
 pub mod c17;
 pub mod c18;
+pub mod parsers;
 
 use crate::engine::{run, Opts};
 
@@ -18,9 +24,14 @@ pub fn dispatch(id: &str, opts: &Opts) -> i32 {
     match id {
         "C01" => run::<c01::C01>(opts),
         "C02" => run::<c02::C02>(opts),
+        "C03" => run::<c03::C03>(opts),
+        "C04" => run::<c04::C04>(opts),
         "C05" => run::<c05::C05>(opts),
+        "C06" => run::<c06::C06>(opts),
         "C07" => run::<c07::C07>(opts),
         "C08" => run::<c08::C08>(opts),
+        "C09" => run::<c09::C09>(opts),
+        "C13" => run::<c13::C13>(opts),
         "C14" => run::<c14::C14>(opts),
         "C15" => run::<c15::C15>(opts),
         "C16" => run::<c16::C16>(opts),
